@@ -32,7 +32,7 @@ package controllers
 //@   requires [C03] !failedSoFar()
 //@   requires [C09] !specPaused(owner)
 //@   requires [C11] pfCheckedArr() != 0 && ea_arr(desiredObj) == pfCheckedArr()
-//@   sink Writer.Patch#1 requires [C01] getResult(currentObj) == 4
+//@   sink Writer.Patch#1 requires [C01,C02] getResult(currentObj) == 4
 //@   sink Writer.Patch#1 requires [C02] isCtrl(arg1, oid(clientObj(owner))) && (forall id int :: isCtrl(arg1, id) ==> id == oid(clientObj(owner)))
 //@   sink Writer.Patch#1 requires [C03] !failedSoFar()
 //@   sink Writer.Patch#1 requires [C09] !specPaused(owner)
@@ -136,3 +136,13 @@ package controllers
 //@   sink RemoveFinalizer:Client.Patch#1 requires [C18] freed(obj)
 //@   ensures tdPending() == old(tdPending())
 //@   ensures archivedNow() == old(archivedNow())
+
+//@ props C15
+// the cached finalizer is on the object, or a patch adding it was accepted, whenever EnsureCachedFinalizer returns nil
+//@ func package-operator.run/internal/controllers.EnsureFinalizer
+//@   sink Client.Patch#1 requires [C15] finalizers(arg1)[finalizer]
+//@   ensures [C15] result == nil ==> old(finalizers(obj)[finalizer]) || W() == old(W()) + 1
+//@ func package-operator.run/internal/controllers.EnsureCachedFinalizer
+//@   sink EnsureFinalizer:Client.Patch#1 requires [C15] true
+//@   ghost finEnsured(obj) := result == nil
+//@   ensures [C15] finEnsured(obj) == (result == nil)
